@@ -90,33 +90,39 @@ def putEntry (v : Variant) (s : WState) (e : Bytes) : Except Err WState :=
 def writePart (v : Variant) (s : WState) (part : List Bytes) : Except Err WState :=
   foldE (putEntry v) s part
 
-/-- `complete()`. Repaired (D2): a field completed without any entry still gets its leading offset `0`. -/
-def complete (v : Variant) (s : WState) : Except Err WState :=
-  let flushValues : Except Err WState :=
-    if s.valueIndex != 0 then
-      match s.values.writePart v 0 (s.rawValues.take s.valueIndex) with
+/-- first half of `complete()`: `if self._value_index != 0: self._values.write(raw[:vi]); self._value_index = 0` -/
+def flushValues (v : Variant) (s : WState) : Except Err WState :=
+  if s.valueIndex != 0 then
+    match s.values.writePart v 0 (s.rawValues.take s.valueIndex) with
+    | .error e => .error e
+    | .ok vals => .ok { s with values := vals, valueIndex := 0 }
+  else .ok s
+
+/-- second half of `complete()`: flush the staged offsets (with the first-index sentinel).
+    Repaired (D2): a field completed without any entry still gets its leading offset `0`. -/
+def flushIndices (v : Variant) (s : WState) : Except Err WState :=
+  if s.indexIndex != 0 then
+    match sentinel v s.indices with
+    | .error e => .error e
+    | .ok ix0 =>
+      match ix0.writePart v 0 (s.rawIndices.take s.indexIndex) with
       | .error e => .error e
-      | .ok vals => .ok { s with values := vals, valueIndex := 0 }
-    else .ok s
-  match flushValues with
-  | .error e => .error e
-  | .ok s1 =>
-    if s1.indexIndex != 0 then
-      match sentinel v s1.indices with
-      | .error e => .error e
-      | .ok ix0 =>
-        match ix0.writePart v 0 (s1.rawIndices.take s1.indexIndex) with
+      | .ok ix => .ok { s with indices := ix, indexIndex := 0 }
+  else
+    match v with
+    | .asFound => .ok s
+    | .repaired =>
+      if s.indices.len == 0 then
+        match s.indices.writePart v 0 [0] with
         | .error e => .error e
-        | .ok ix => .ok { s1 with indices := ix, indexIndex := 0 }
-    else
-      match v with
-      | .asFound => .ok s1
-      | .repaired =>
-        if s1.indices.len == 0 then
-          match s1.indices.writePart v 0 [0] with
-          | .error e => .error e
-          | .ok ix => .ok { s1 with indices := ix }
-        else .ok s1
+        | .ok ix => .ok { s with indices := ix }
+      else .ok s
+
+/-- `complete()` -/
+def complete (v : Variant) (s : WState) : Except Err WState :=
+  match flushValues v s with
+  | .error e => .error e
+  | .ok s1 => flushIndices v s1
 
 /-- a fresh field of the given backend, the parts written one `write_part` call each, then `complete()` -/
 def writeField (v : Variant) (c : Nat) (h5 : Bool) (parts : List (List Bytes)) : Except Err WState :=
